@@ -88,9 +88,16 @@ func (rp *RuleParser) ParseVariables(vars string) error {
 					}
 				}
 				// we skip one additional character
+				if i+2 < len(vars) && vars[i+2] != '|' {
+					return fmt.Errorf("unexpected character %q after quoted key: %q", vars[i+2], vars)
+				}
 				i += 2
 				isquoted = false
 			} else if curr == 2 {
+				// the character after the closing slash must be the separator
+				if i+1 < len(vars) && vars[i+1] != '|' {
+					return fmt.Errorf("unexpected character %q after regular expression key: %q", vars[i+1], vars)
+				}
 				i++
 			}
 
